@@ -55,3 +55,12 @@ CHECKS["C19"] = (
     "DESIGN.md#c19",
 )
 NA.pop("C19", None)
+
+CHECKS["C01"] = (
+    "other",
+    "static analysis: interprocedural read/write effect summaries over access paths (property getters inlined through the MRO) + path-sensitive simulation of Cache surgery on statement CFGs; dominator checks of the verify protocol",
+    "Decides history independence of the mesh cache structurally: every cache_decorator producer reads hashed data only; in every function that keeps memo entries across a data change (exclude sets, cache locks, id_set, dict surgery) each surviving entry is re-assigned by that function or independent of what was written (size-only reads survive count-preserving writes); nothing is read from the memo under a lock after data it depends on was written; cache accessors verify before use; normals are transported only under the rotation and conformality guards; companion keys stay together; ray/proximity structures are keyed on the mesh hash. Numerical correctness of transported values and histories that change arrays through routes C02 lists as findings are not decided.",
+    "Trusted: the E1 effect model (flow-insensitive aliasing inside a function, role-based receiver typing, frozen tables of mutating / fresh / aliasing external calls), CFG construction, the frozen invariance table; known findings in known_findings.json.",
+    "DESIGN.md#c01",
+)
+NA.pop("C01", None)
